@@ -91,10 +91,15 @@ def post_pmtm(x, NW, k, NFFT, e, v, method, result):
                 # fallback: coarse fixed-point test at the spectrum the weights imply
                 P = np.abs(ref.T) ** 2
                 S = np.sum(w * P, axis=1) / np.sum(w, axis=1)
-                sig2 = float(np.mean(np.abs(xa.astype(complex)) ** 2))
-                b = S[:, None] / (S[:, None] * lam[None, :] + sig2 * (1 - lam[None, :]))
-                wf = b ** 2 * lam[None, :]
-                c.compare('pmtm:adapt-weights-fixed-point(coarse)', w, wf, 0.25, feats, scale=1.0, detail=det)
+                if float(np.max(S)) > 100 * float(np.median(S)):
+                    # large dynamic range: the stop rule bounds the mean change only, single low-power bins may be
+                    # far from the fixed point (observed 0.2) - not judged without the probe
+                    c.discard('adapt-fixed-point:dynamic-range-guard')
+                else:
+                    sig2 = float(np.mean(np.abs(xa.astype(complex)) ** 2))
+                    b = S[:, None] / (S[:, None] * lam[None, :] + sig2 * (1 - lam[None, :]))
+                    wf = b ** 2 * lam[None, :]
+                    c.compare('pmtm:adapt-weights-fixed-point(coarse)', w, wf, 0.25, feats, scale=1.0, detail=det)
 
 
 _PROBE_OK = [False]
@@ -125,19 +130,31 @@ def _probe_adapt(loc):
     S1 = np.asarray(S1, dtype=float).reshape(-1)
     wk = np.asarray(wk)
     a = power * (1 - lam)
-    b = S1[:, None] / (S1[:, None] * lam[None, :] + a[None, :])
-    wf = b ** 2 * lam[None, :]
+
+    def thomson(Sit):
+        b = Sit[:, None] / (Sit[:, None] * lam[None, :] + a[None, :])
+        return b ** 2 * lam[None, :]
+    # the weights must be Thomson's formula at one of the last two spectrum iterates (the code computes them
+    # from the iterate before the final update; computing them from the final one would satisfy the property too)
+    wf1, wf0 = thomson(S1), thomson(S)
+    wkr = np.asarray(wk, dtype=float) if np.isrealobj(wk) else np.asarray(wk)
+    e1 = float(np.max(np.abs(wkr - wf1))) if wkr.shape == wf1.shape else np.inf
+    e0 = float(np.max(np.abs(wkr - wf0))) if wkr.shape == wf0.shape else np.inf
+    wf = wf1 if e1 <= e0 else wf0
     c.compare('probe:adapt-weights-are-Thomson-formula-at-their-iterate', wk, wf, 1e-9, feats, scale=1.0,
               detail={'iterations': int(i), 'NFFT': int(NFFT), 'k': nwin})
     P = np.asarray(Sk, dtype=float)
-    if P.shape == wk.shape:
+    if P.shape == wk.shape and e1 <= e0 and e1 <= 1e-9:
         Snew = np.sum(wk * P, axis=1) / np.sum(wk, axis=1)
         c.compare('probe:adapt-spectrum-is-weighted-mean-of-eigenspectra', S, Snew, 1e-9, feats,
                   scale=float(np.max(np.abs(Snew))) or 1.0)
-    stopped = float(np.sum(np.abs(S - S1))) / NFFT <= 0.0005 * power / float(NFFT) * (1 + 1e-9)
-    c.require('probe:adapt-loop-ended-converged-or-at-cap', bool(stopped or i >= 100),
-              {'iterations': int(i), 'mean_change': float(np.sum(np.abs(S - S1))) / NFFT,
-               'tol': 0.0005 * power / float(NFFT)}, feats)
+    # "converged" in a scale-free sense: the last update changed the spectrum by less than 0.1 % of its mean level
+    # (the code's own rule, mean|S-S1| <= 0.0005 sigma^2/NFFT, is NFFT times stricter than that)
+    change = float(np.mean(np.abs(S - S1)))
+    level = float(np.mean(np.abs(S)))
+    c.err('probe:adapt-last-change/mean-level', change / level if level > 0 else 0.0)
+    c.require('probe:adapt-loop-ended-converged-or-at-cap', bool(change <= 1e-3 * level or i >= 100),
+              {'iterations': int(i), 'mean_change': change, 'mean_level': level}, feats)
     _last_probe['rec'] = {'wk': np.array(wk, copy=True)}
 
 
